@@ -21,7 +21,7 @@ RULE = ("subject = transform family x configuration x moderate parameter policy 
         "non-trivial when float32 and float64 results differ at all (the comparison is not between identical numbers)")
 ASSUMPTIONS = ["bound: 64 eps32 (1+|ref|) + 16 eps32 |J|_inf (1+|x|) for outputs; 64 eps32 D (1+|ref|) + 16 eps32 S (1+|x|) for log-dets, "
                "J and S (sensitivity of the log-det) measured on the float64 twin", "items whose float64 Jacobian has cond > 1e6 are skipped (counted)"]
-REQUIRED_COUNTS = ["twin_items", "dtype_checks", "spline_points", "wide_linear_items", "late_conversion_checks"]
+REQUIRED_COUNTS = ["twin_items", "dtype_checks", "spline_points", "wide_linear_items", "late_conversion_checks", "dist_twin_items"]
 BUDGET = {"case_timeout": {"quick": 400, "thorough": 3000}}
 E32 = 1.1920929e-07
 
@@ -43,6 +43,14 @@ def gen_cases(tier, seed):
     for i in range(20 if tier == "quick" else 2000):
         cases.append({"kind": "flow", "cfg": dzoo.sample_flow_cfg(rng), "seed": env.subseed(seed, "c19f", i), "world": "f32",
                       "cost": 3})
+    # library distributions (log_prob of the float32 object next to its .double() twin; narrow mixture components included:
+    # densities evaluated through exp() of a large negative number underflow in float32 long before their logarithm does)
+    for i in range(16 if tier == "quick" else 600):
+        dc = dzoo.sample_dist_cfg(rng, [["mademog", "mademog", "cond_diag", "diag"][i % 4]])
+        if dc["dist"] == "mademog":
+            dc["narrow"] = i % 8 < 4
+            dc["bn"] = False
+        cases.append({"kind": "dist", "cfg": dc, "seed": env.subseed(seed, "c19d", i), "world": "f32", "cost": 1})
     # wide linear layers (a product of a few hundred diagonal entries leaves the float32 range; its log does not)
     for i, fam in enumerate(["lu", "qr", "svd", "naive", "conv"] * (1 if tier == "quick" else 24)):
         cases.append({"kind": "wide_linear", "family": fam, "features": [256, 192, 300, 512][(i // 5 + i) % 4],
@@ -239,6 +247,8 @@ def run_case(case):
         return r.done()
     if kind == "wide_linear":
         return run_wide(r, case)
+    if kind == "dist":
+        return run_dist(r, case)
     try:
         if kind == "zoo":
             cfg = case["cfg"]
@@ -350,6 +360,54 @@ def run_case(case):
     except Exception as e:
         r.count("late_conversion_raised")
     r.sample({"family": label, "policy": case["policy"], "x0": x[0].reshape(-1)[:5]})
+    return r.done()
+
+
+def run_dist(r, case):
+    cfg, seed = case["cfg"], case["seed"]
+    try:
+        d = dzoo.build_dist(cfg, seed)
+        d.eval()
+        d64 = twin(d)
+    except Exception as e:
+        r.inconc("construction failed %r" % (e,))
+        return r.done()
+    label = "dist_" + cfg["dist"]
+    det = dict(cfg=cfg)
+    x, c = dzoo.dist_inputs(cfg, 24, seed + 1)
+    x = (x * torch.linspace(0.3, 2.7, x.shape[0]).reshape([-1] + [1] * (x.dim() - 1))).float()     # up to ~4 sigma of N(0, 1.5)
+    c = c.float() if c is not None else None
+    if c is None and dzoo.dist_meta(cfg)["needs_ctx"]:
+        return r.done()
+    try:
+        with torch.no_grad():
+            lp64 = d64.log_prob(x.double(), c.double() if c is not None else None)
+            lp32 = d.log_prob(x, c)
+    except Exception as e:
+        r.count("dist_call_raised")
+        return r.done()
+    r.ev(x.shape[0])
+    r.count("twin_items", x.shape[0])
+    r.count("dist_twin_items", x.shape[0])
+    dtype_clause(r, label, "log_prob (float32 inputs)", lp32, torch.float32, det)
+    dtype_clause(r, label, "log_prob (float64 inputs)", lp64, torch.float64, det)
+    ok64 = torch.isfinite(lp64)
+    if (ok64 & ~torch.isfinite(lp32)).any():
+        k = int((ok64 & ~torch.isfinite(lp32)).nonzero()[0])
+        r.viol("nonfinite_in_float32", "%s.log_prob is not finite in float32 (finite in float64)" % label, f32=float(lp32[k]),
+               f64=float(lp64[k]), x=x[k].reshape(-1)[:4], **det)
+        return r.done()
+    if ok64.any():
+        err = (lp32.double() - lp64).abs()[ok64]
+        allowed = 1e-3 * (1 + lp64.abs()[ok64])
+        r.worst("dist_logprob_err/allowed", float((err / allowed).max()))
+        if bool((err > allowed).any()):
+            k = int((err / allowed).argmax())
+            r.viol("logprob_disagrees", "%s.log_prob float32 disagrees with the float64 twin" % label, err=float(err[k]),
+                   f64=float(lp64[ok64][k]), **det)
+        elif float(err.max()) > 0:
+            r.cell(label, "log_prob", bool(cfg.get("narrow")))
+    r.sample({"dist": cfg["dist"], "narrow": cfg.get("narrow")})
     return r.done()
 
 
